@@ -255,7 +255,7 @@ def run(chk):
             continue
         for call, _b in M.find(h, "self._release_waiter()"):
             units = PC.units(PC.pc(call, stop=h))
-            others = [l for l in units if not ((l.text == f"{fut}.done()" and l.pos) or (l.text == f"{fut}.cancelled()" and not l.pos) or l.text.startswith("except "))]
+            others = [l for l in units if not ((l.text == f"{fut}.done()" and l.pos) or (l.text == f"{fut}.cancelled()" and not l.pos) or l.text.startswith("EXCEPT("))]
             has_done = any(l.text == f"{fut}.done()" and l.pos for l in units)
             has_nc = any(l.text == f"{fut}.cancelled()" and not l.pos for l in units)
             reraises = PC.terminates(h.body) and isinstance(h.body[-1], ast.Raise)
